@@ -97,6 +97,35 @@ class Walker:
                 return None
             return None
 
+    def option_match(self, n):
+        """`match opt { Some(x) => A, None => B }` over a field of the value: [(arm, presence key)] as for `if let Some(x) = opt`, else None."""
+        f = self.field_of(n["e"])
+        if f is None or len(n["arms"]) != 2:
+            return None
+        out = []
+        kinds = set()
+        for a in n["arms"]:
+            pat = a["pat"]
+            while pat.get("k") == "pref" and "p" in pat:
+                pat = pat["p"]
+            head = (pat.get("r") or {}).get("p", "") if pat.get("k") in ("pts", "pstruct", "ppath") else ""
+            if a.get("guard") is not None:
+                return None
+            if head.endswith("::Some") and pat.get("k") in ("pts", "pstruct"):
+                for sub in (pat.get("a") or [x[1] for x in pat.get("f", [])]):
+                    if sub.get("k") == "bind":
+                        self.roots[sub["b"]] = f
+                    elif sub.get("k") != "wild":
+                        return None
+                out.append((a, "some:" + f))
+                kinds.add("some")
+            elif head.endswith("::None") or pat.get("k") == "wild":
+                out.append((a, "none:" + f))
+                kinds.add("none")
+            else:
+                return None
+        return out if kinds == {"some", "none"} else None
+
     def cond_key(self, c, pol=True):
         """Normalised presence predicate(s) of a condition: list of keys."""
         keys = []
@@ -307,6 +336,11 @@ class WriterWalk(Walker):
             return
         if k == "match":
             # dispatch tables are handled by the caller (write_executable_content / write_data)
+            om = self.option_match(n)
+            if om is not None:
+                for a, key in om:
+                    self.walk(a["body"], guards + [key], loops)
+                return
             self.notes.append(("match", n))
             for a in n["arms"]:
                 self.walk(a["body"], guards + ["arm:" + arm_key(a["pat"])], loops)
